@@ -867,8 +867,17 @@ func (r *JobRun) tickOp(op *Op, i int) *Violation {
 		}
 		return nil
 	}
-	// advance to just after the next trigger time: the "@every 10m" trigger fires once
-	time.Sleep(10*time.Minute + time.Second)
+	// advance to just after the next trigger time: the "@every 10m" trigger fires once. The instant is read
+	// from the hub's schedule: a fixed 10 minutes would drift against the cron by the time spent waiting for
+	// re-runs and let a later tick see two trigger runs
+	fire := time.Now().Add(10 * time.Minute)
+	for _, e := range r.H.Full.Sched.GetScheduleEntries().Entries {
+		// (this profile schedules one job; the listing's job ids are unreliable: it maps entries by slice index)
+		if e.Next.After(time.Now()) && e.Next.Before(fire.Add(time.Second)) {
+			fire = e.Next
+		}
+	}
+	time.Sleep(time.Until(fire) + time.Second)
 	if !r.H.WaitJobsIdle(2 * time.Hour) {
 		return viol("C17", "job-run", "job-hangs", "job still running after 2h of simulated time")
 	}
